@@ -22,7 +22,7 @@ def run(ctx):
         "exhaustive TLC results hold for the stated small constants only",
     ]
     ctx.extra["rule"] = ("states/transitions: TLC (Level-B models + trace validation); traces: real executions under the deterministic "
-                         "scheduler validated by the Level-A monitors; distinct_nontrivial = executions (distinct seed / DFS tape each)")
+                         "scheduler validated by the Level-A monitors; distinct_nontrivial = executions with pairwise different observable event logs (md5 of the log without the seed)")
     exe = build.harness("batch", ["batch.cc"], "shim")
     B.model_check_batch(ctx, ["NoOverlap", "BatchBound"], expect_violation_with_devs=["BatchBound"], live=False, with_devs=True)
     B.model_vs_monitor(ctx)
@@ -40,7 +40,6 @@ def run(ctx):
     except ImportError:
         pass
     ctx.evaluations = ctx.traces
-    ctx.distinct.update(range(ctx.traces))
 
 
 def replay(ctx, path):
